@@ -178,14 +178,18 @@ func checkC20(p *Prog, l *Ledger) {
 	_, ws, _ := exploreMain(p, l, "main.run")
 	fresh := map[string]bool{}
 	for _, w := range ws {
+		made := map[string]bool{} // interpreters created earlier on this path (in run or a helper inlined into it)
 		for _, e := range w {
 			if e.Op == "call" {
 				for _, ctor := range []string{"lexer.NewScanner", "parser.NewParser", "interpreter.NewInterpreter"} {
 					if e.Args[0] == ctor {
 						fresh[ctor] = true
+						if ctor == "interpreter.NewInterpreter" && e.KV["res"] != "" {
+							made[e.KV["res"]] = true
+						}
 					}
 				}
-				if strings.HasSuffix(e.Args[0], ").Interpret") && len(e.Args) > 1 && !strings.HasPrefix(e.Args[1], "r@run:") {
+				if strings.HasSuffix(e.Args[0], ").Interpret") && len(e.Args) > 1 && !strings.HasPrefix(e.Args[1], "r@run:") && !made[e.Args[1]] {
 					l.Violate("C20/S2-fresh-session", "main.run#interpreter", e.Pos, "the interpreter used for a line ("+e.Args[1]+") is not created in this call of run")
 				}
 			}
